@@ -68,6 +68,18 @@ func installHooks() {
 			cl.gate("window inside UpdateLUNMap (map preloaded, server unlocked)")
 		}
 	}
+	inject.PreloadHook = func() {
+		// FiemapFail armed: one extent query of the base file fails while the task's replica rebuilds its block map
+		if cl := curr; cl != nil && cl.cur != nil && cl.cur.running && cl.cur.goid == goid() && cl.failFiemap {
+			cl.failFiemap = false
+			if rn, ok := cl.nodes[cl.cur.node].(*RealNode); ok && rn.srv.Replica() != nil {
+				if restore, ok := rn.srv.Replica().VerifFailFiemapOnce(1); ok {
+					cl.cnt["fiemap_failures_injected"]++
+					cl.restoreFiemap = restore
+				}
+			}
+		}
+	}
 	never := make(chan vtime.Time)
 	vtime.TickerHook = func(d vtime.Duration) <-chan vtime.Time {
 		if d == jsync.SnapshotDeletionInterval {
